@@ -13,7 +13,7 @@ import (
 
 // C18: module paths resolve as documented, consistently across features.
 
-var c18Candidates = []string{"x.lua", "m/x.lua", "n/x.lua", "m/init.lua", "m.lua", "x.so"}
+var c18Candidates = []string{"x.lua", "m/x.lua", "n/x.lua", "m/init.lua", "m.lua", "x.so", "x/q/x.lua"}
 var c18Modules = []string{"x", "m.x", "m/x", "n.x", "m", "m.init", "q"}
 var c18Forms = []string{`require "%s"`, `require("%s")`, `dofile("%s.lua")`}
 var c18Seps = []string{".", "/"}
@@ -241,7 +241,8 @@ func c18Space(tier string) *core.Space {
 				}
 				// several equally ranked fuzzy candidates and no exact one: which of them is taken is C09's subject
 				// (it depends on map iteration order), so the agreement of the features is judged only otherwise
-				unique := must || len(accept) <= 1
+				unique := true // since the tie-break fixes fed7a88 / 9b489cf the choice among equal candidates is deterministic
+				_ = accept
 				if unique && defFile != "" && hovFile != "" && defFile != hovFile {
 					fail("definition-and-hover-name-different-files")
 				}
